@@ -196,3 +196,27 @@ Theorem udp_size_bound_computed :
                    /\ msg_clen nt r <= udp_limit (client_opt q)).
 Proof. exact udp_size_bound_c_l. Qed.
 Print Assumptions udp_size_bound_computed.
+
+(* ---- the premise req_opt_clean ---- *)
+
+(* it holds for every writer of OPT options the tree has: whatever sequence of SetEDE / cache EDE
+   restore / pool keepalive / SetEdns0's forwarded ECS ran on the request's OPT *)
+Theorem req_opt_clean_tree :
+  forall c d,
+    cfg_wf c ->
+    (forall o, find_req (m_ex d) = Some o ->
+       exists l ws, Forall writer_ok ws /\ o_opts o = apply_writers (fwd_opts c l) ws) ->
+    req_opt_clean d.
+Proof. exact req_opt_clean_tree_l. Qed.
+Print Assumptions req_opt_clean_tree.
+
+(* and it cannot be dropped: a (hypothetical) handler that appends a private-use option to the
+   request's own OPT and attaches another OPT after it gets that option through to the client.
+   Not a defect of the tree — no handler does this — but the remaining gap of fix fb9758c; the
+   hardening is one line (keepRelayable on w.opt.Option), see NOTES.md. *)
+Theorem req_opt_clean_necessary :
+  exists tr c q d clen r,
+    serve_msg tr c q false (Some d) clen = Some r /\ cfg_wf c /\ dn_echo q d /\ client_ver q = 0
+    /\ ~ req_opt_clean d /\ options_own tr c (client_opt q) r = false.
+Proof. exact req_opt_clean_necessary_l. Qed.
+Print Assumptions req_opt_clean_necessary.
